@@ -4,6 +4,7 @@ CONSTANTS
   SmallMaxN = 0
   SmallVersions <- NoV
   VSels <- QuickVSels
+  Slim = FALSE
   Variants <- QuickVariants
 SPECIFICATION Spec
 CHECK_DEADLOCK FALSE
